@@ -150,7 +150,7 @@ func genSpec(rng *rand.Rand, s bgpx.Sess, focus string, size int, uid uint32) bg
 				n = rng.IntN(left + 1)
 			}
 			t := uint8(2)
-			if rng.IntN(6) == 0 {
+			if rng.IntN(6) == 0 && n <= 255 { // an AS_SET has no meaningful split: sets stay within one segment
 				t = 1
 			}
 			if n > 0 {
@@ -227,15 +227,6 @@ func genCase(rng *rand.Rand, i int) c17case {
 	u := gen.Universe(rng, !c.Sess.V6, 4)
 	c.Pfxs = u[:1+rng.IntN(len(u))]
 	return c
-}
-
-func attrCode(name string) uint8 {
-	for t := 0; t < 256; t++ {
-		if bgpx.AttrName(uint8(t)) == name && name != "unknown-attribute" {
-			return uint8(t)
-		}
-	}
-	return 255
 }
 
 type reporter func(clause string, f map[string]string, detail string)
@@ -347,8 +338,8 @@ func runSender(c c17case, rep reporter) (st cstat) {
 			continue
 		}
 		last := wi == len(writes)-1
-		if cul, decl := bgpx.LengthCulprit(body, expLens); cul != "" && !last {
-			rep("attribute-length", asFeat(cul), fmt.Sprintf("%s (%s, focus %s size %d): attribute %s declares %d bytes, which no encoding of the handed content has (allowed %v); message of %d bytes", s, c.Mode, c.Focus, c.Size, cul, decl, expLens[attrCode(cul)], len(w)))
+		if cul, decl, typ := bgpx.LengthCulprit(body, expLens); cul != "" && !last {
+			rep("attribute-length", asFeat(cul), fmt.Sprintf("%s (%s, focus %s size %d): attribute %s declares %d bytes, which no encoding of the handed content has (allowed %v); message of %d bytes", s, c.Mode, c.Focus, c.Size, cul, decl, expLens[typ], len(w)))
 			broken = true
 			continue
 		}
